@@ -99,8 +99,12 @@ def readQty (us : Sys) (dim : Dim) : Json → Res UVal
 def writeQty (x : UVal) : Json := .qty x.v (showUnits x.u)
 
 /-- Python `k.split(",")` then `.strip()` of every piece -/
+def splitOnComma : List Char → List Char → List (List Char)
+  | [], cur => [cur.reverse]
+  | c :: cs, cur => if c == ',' then cur.reverse :: splitOnComma cs [] else splitOnComma cs (c :: cur)
+
 def splitKeys (k : String) : List String :=
-  (k.splitOn ",").map fun s => String.ofList (stripBlank s.toList)
+  (splitOnComma k.toList []).map fun s => String.ofList (stripBlank s)
 
 def assocSet {α} (m : List (String × α)) (k : String) (v : α) : List (String × α) :=
   if m.any (fun p => p.1 == k) then m.map (fun p => if p.1 == k then (k, v) else p) else m ++ [(k, v)]
